@@ -88,6 +88,22 @@ func CalculateDuration(deposit sdk.Coin, flowRate int64) int64 {
 	return 0
 }
 
+// maxStreamTimeUnix is 9999-12-31T23:59:59Z, the latest time a protobuf Timestamp can carry
+const maxStreamTimeUnix = int64(253402300799)
+
+// AddSeconds returns t + seconds without going through time.Duration, which overflows for
+// anything longer than ~292 years (9.2e9 seconds) and would put the result in the past.
+// The result saturates at the latest time that can be stored.
+func AddSeconds(t time.Time, seconds int64) time.Time {
+	if seconds <= 0 {
+		return t
+	}
+	if t.Unix() >= maxStreamTimeUnix || seconds > maxStreamTimeUnix-t.Unix() {
+		return time.Unix(maxStreamTimeUnix, 0).UTC()
+	}
+	return time.Unix(t.Unix()+seconds, int64(t.Nanosecond())).UTC()
+}
+
 func CalculateAmountToClaim(
 	nowTime,
 	depositZeroTime,
